@@ -35,10 +35,12 @@ Obs(t, init) == IF Len(t) = 1 THEN (IF init THEN BaseInit[t[1]] ELSE BaseZero[t[
 ZeroContexts == {"local-zero", "global-zero", "param", "result", "field", "slice-elem", "array-elem", "map-value", "closure-capture", "iface-box",
                  "ptr-deref", "multi-result", "method-receiver-field", "defer-arg", "range", "nested-closure"}
 InitContexts == {"local-init", "global-init", "append-elem", "iface-map-value", "struct-literal-field", "assign-through-ptr"}
-Contexts == ZeroContexts \cup InitContexts \cup {"eq-self"}
+\* calls whose results are discarded: the program only has to compile and reach its last statement
+DiscardContexts == {"defer-result", "defer-method-result", "defer-closure-result", "discard-result"}
+Contexts == ZeroContexts \cup InitContexts \cup DiscardContexts \cup {"eq-self"}
 
 WellTyped(t, c) == WellFormed(t) /\ (c = "eq-self" => Comparable(t))
-Want(t, c) == IF c = "eq-self" THEN "true" ELSE Obs(t, c \in InitContexts)
+Want(t, c) == IF c = "eq-self" THEN "true" ELSE IF c \in DiscardContexts THEN "ok" ELSE Obs(t, c \in InitContexts)
 
 \* ill-typed skeletons are kept in the two contexts where the error is the type's or the comparison's
 Skeletons == {s \in [type : AllTypes, ctx : Contexts] : WellTyped(s.type, s.ctx) \/ s.ctx \in {"local-zero", "eq-self"}}
